@@ -426,6 +426,18 @@ Definition z_or (o : option Z) : Z := match o with Some v => v | None => (-99999
 Definition const_values (raw : string) : list Z :=
   [z_or (eval_c_int raw); z_or (eval_rust_int raw); z_or (math_int (parse_literal raw))].
 
+(* the text each backend writes for a constant: model of the emitters against the generated files.
+   One number per constant: bit 0 C, bit 1 C++, bit 2 Java, bit 3 Rust (15 = all four agree) *)
+Require Import ConstEmit.
+Definition chk_c17_emit (cs : list (prim * string * (string * string * string * string))) : list N :=
+  map (fun x => let '(p, raw, (c, cpp, j, r)) := x in
+         b2n (String.eqb (show_cexpr (c_const_expr p raw)) c) +
+         2 * b2n (String.eqb (show_cexpr (c_const_expr p raw)) cpp) +
+         4 * b2n (String.eqb (java_const_literal p raw) j) +
+         8 * b2n (String.eqb (rust_const_literal p raw) r)) cs.
+Definition show_emitted (p : prim) (raw : string) : list string :=
+  [show_cexpr (c_const_expr p raw); java_const_literal p raw; rust_const_literal p raw].
+
 (* ---- C16 / C14: the PST -> AST model against the real parser ---- *)
 Require Import Pst PstWf.
 Definition sx_aty (t : aty) : sx :=
